@@ -798,7 +798,7 @@ func TestVerifC03A(t *testing.T) {
 	if !verifkit.Thorough() {
 		for _, p := range params {
 			light := map[string]bool{"sort": true, "worker-keep": true, "worker-drop": true, "worker-empty": true, "iworker": true,
-				"condworker": true, "rebatch": true, "filterempty": true, "concat": true, "completefile": true, "batchover": true, "merge": true}
+				"condworker": true, "completefile": true, "batchover": true, "merge": true}
 			if light[p.Scn] && len(p.Parts) <= 1 && len(p.Parts2) <= 1 && p.Workers <= 2 {
 				jobs = append(jobs, job{p, "full", -1, 60000})
 			}
